@@ -59,6 +59,8 @@ def describe(resp):
     """(serialized bytes, python class path, runtime descriptor full name) of a returned message."""
     if resp is None:
         return None, None, None
+    if isinstance(resp, (bytes, bytearray)):
+        return bytes(resp), "builtins.bytes", None      # raw bytes handed to the caller (no deserializer)
     b, cls = to_bytes(resp)
     t = type(resp)
     if hasattr(t, "pb") and hasattr(t, "serialize"):
